@@ -160,10 +160,10 @@ def apply_cmd(m, bag, e, cmd, a, b, day, fresh):
     raise ValueError(cmd)
 
 
-def on_disk_matches(m, bag, label):
+def on_disk_matches(m, bag, label, tds=('/h/.local/share/Trash', '/v/.Trash/1000', '/v/.Trash-1000')):
     snap = m.snap('/')
     n = 0
-    for td in ('/h/.local/share/Trash', '/v/.Trash/1000', '/v/.Trash-1000'):
+    for td in tds:
         for name, (info, payload) in scen.trash_entries(snap, td).items():
             if info is None or payload is None:
                 return rt.fail('C09:incomplete-pair-on-disk:' + label, '%s/%s info=%r payload=%r' % (td, name, info is not None, payload is not None))
@@ -246,6 +246,45 @@ def _hist_case(c0, c1, c2, a, b):
         return rt.ok()
 
 
+def _net_case(c0, c1, a, b, sticky):
+    """the same history check with the entries on a NETWORK volume (an NFS share: the mount table lists it only among
+    'all' file systems, not among those of physical devices): every command must still see its trash directory"""
+    global DIRS
+    with rt.untraced():
+        rt.begin(('network-volume', c0, c1, a, b, sticky))
+        e = scen.env()
+        nodes = [W.d('/h'), W.d('/h/w'), W.d('/net/d'), W.d('/net/e/deep'), W.d('/v/d'), W.f('/v/keep', 'KEEP', 0o644, 800)]
+        if sticky:
+            nodes.append(W.d('/net/.Trash', 0o1777))
+        m = W.build_model(W.W(mounts=K.MOUNTS + ['/net'], cwd='/', nodes=nodes))
+        bag = Bag()
+        saved = DIRS
+        DIRS = ['/net/d', '/net/e/deep', '/h/w']
+        try:
+            seq = [0, 0, c0, c1]
+            args = [(a, b), (a + 1, b + 1), (a + 1, b), (a, b + 1)]
+            for i, (c, (x, y)) in enumerate(zip(seq, args)):
+                r = apply_cmd(m, bag, e, c, x, y, i, i)
+                if r:
+                    return r
+                label = 'network-volume:history=%r' % (seq[:i + 1],)
+                r = check_list(m, bag, e, 'after step %d' % i, label) or on_disk_matches(
+                    m, bag, label, ('/h/.local/share/Trash', '/net/.Trash/1000', '/net/.Trash-1000'))
+                if r:
+                    return r
+        finally:
+            DIRS = saved
+        return rt.ok()
+
+
+def w_net(c0: int, c1: int, a: int, b: int, sticky: bool) -> str:
+    """
+    pre: 0 <= c0 < 7 and 0 <= c1 < 7 and 0 <= a < 3 and 0 <= b < 4
+    post: _ == ''
+    """
+    return _net_case(rt.sel(c0, 7), rt.sel(c1, 7), rt.sel(a, 3), rt.sel(b, 4), rt.selb(sticky))
+
+
 def w_step(n0: int, slots: int, cmd: int, a: int, b: int, top_sticky: bool, lone: bool) -> str:
     """
     pre: PARTITION is None or cmd == PARTITION
@@ -283,4 +322,7 @@ def obligations(tier):
         CH('W_histories_len_5', MOD, 'w_hist', timeout=1800, partitions=[(c, 4 if tier == 'thorough' else 1) for c in range(6)], engine='W', regime='selector',
            encodes=enc, stubs=K.STUBS,
            bounds='2 puts then every sequence of 3 commands out of 6 kinds x 3 x 4 argument seeds (quick: 3 x 1); trash-list checked after every step'),
+        CH('W_histories_on_a_network_volume', MOD, 'w_net', timeout=900, engine='W', regime='selector', encodes=enc + ['trashcli.fstab.mount_points_listing.os_mount_points (real, over the psutil stub)'],
+           stubs=K.STUBS + ['psutil.disk_partitions: an NFS share is listed only with all=True'],
+           bounds='entries on an NFS share: 2 puts then every sequence of 2 commands out of 7 kinds x 3 x 4 argument seeds x .Trash sticky or absent; trash-list checked after every step'),
     ]
